@@ -35,6 +35,17 @@ claim('C36',
       'sequences reaching hash(). One known finding (vTK hash vs allclose equality) listed in known_findings.json.',
       'DESIGN.md 3/C36')
 
+claim('C28',
+      'Bounded symbolic verification by inductive step: from ANY state (occupation vector, order inside each per-species list, '
+      'count shape) satisfying the representation invariant, one real Supercell operation (setocc, __setitem__, reorder, '
+      '__imul__/__mul__, fillperiodic, copy, POSCAR->POSCAR_occ) with symbolic arguments (species index an arbitrary integer) '
+      'is executed on z3 terms; post-state = invariant + functional specification, decided by z3 on every feasible path. '
+      'Because the invariant is inductive this covers edit histories of any length on the listed supercells.',
+      'Supercells enumerated (2-4 sites, Nsolute 0..2, with/without interstitial sublattice); |c| <= 10^6 (int64 wrap outside); '
+      'POSCAR text is concrete per path (ordering case-split by the solver); group operations enumerated from the supercell group. '
+      'One defect found and fixed (setocc range check, see known_findings.json).',
+      'DESIGN.md 3/C28, 2.2')
+
 na('C01', 'exact oracle is an infinite-state pair Markov chain reached through Brillouin-zone quadrature, LAPACK and hyp1f1/expi; '
           'agreement only to integration accuracy: no algebraic statement a solver can decide (DESIGN 5)')
 na('C06', 'identities hold only for the true lattice Green function of the omega0 network (numerical k-space integration); '
